@@ -1,4 +1,5 @@
 import PdtVerif.Lemmas.StringMatch
+import PdtVerif.Lemmas.StringMatchBatch
 /-!
 # C01 — edit distance is the weighted Levenshtein distance, per pair and per prefix
 
@@ -12,6 +13,12 @@ minimum in `Lemmas/Levenshtein.lean`.
 `cut eos include_eos col` is the part of a padded column that counts: everything before the
 first eos, the eos itself kept iff `include_eos` (`C01_cut_*` pin this down on explicit
 `content ++ eos :: garbage` columns).
+
+The second half (`C01_delmat_inf*`, `C01_batch_*`) is about the TENSOR-level model
+(`Model/StringMatchBatch.lean`: whole `(L, N)` tensors, row-wise operations vectorised over the
+batch as in the code, `del_mat` with explicit `+inf` entries, `batch_first` as a transposition,
+the batch-size `RuntimeError`): every entry of its result is the per-column model on that
+sequence of the batch, hence everything above holds for every pair of every batch in either layout.
 
 All statements hold for every cost triple (no sign condition is needed: the uniform-cost
 shortcut carries its own `> 0` test), every token type, every `R`, `H`, and every eos setting.
@@ -256,6 +263,176 @@ theorem C01_prefix_independent (c : Costs) (eos : Option α) (inc norm excl : Bo
   rw [prefixEditDistances_eq, prefixEditDistances_eq, List.getElem?_map, List.getElem?_map,
     List.getElem?_range h₁', List.getElem?_range h₂', hr, hh]
 
+/-! ### The `+inf` entries of `del_mat`, explicitly -/
+
+/-- Entry `(i, j)` of `del_mat` as the code builds it (`row.unsqueeze(1) - row` plus
+`full_like(inf).triu(1)`), in the extended rationals (`none` = `+∞`). -/
+def delMatAt (d : Rat) (R1 i j : Nat) : ERat := ((delMat d R1).getD i []).getD j none
+
+/-- `del_mat` is `i·d − j·d` on and below the diagonal and `+∞` strictly above it. -/
+theorem C01_delmat_entries (d : Rat) (R1 i j : Nat) (hi : i < R1) (hj : j < R1) :
+    delMatAt d R1 i j = if i < j then none else some ((i : Rat) * d - (j : Rat) * d) := by
+  unfold delMatAt delMat
+  simp only [List.getD_eq_getElem?_getD, List.getElem?_map, List.getElem?_range hi, List.getElem?_range hj,
+    Option.map_some, Option.getD_some]
+  split <;> simp [eadd]
+
+/-- **C01_delmat_inf**: the minimum over ALL `R + 1` entries of line `i` of `del_mat + v` — the `+∞`
+entries included, computed in the extended rationals — is a finite number, and it is the minimum
+over `j ≤ i` that the per-column model (`delMatEntry`, hence `delmat_eq_sweep`) uses. An infinite
+entry never wins and never leaks. -/
+theorem C01_delmat_inf (d : Rat) (v : List Rat) (i : Nat) (hi : i < v.length) :
+    (List.range v.length).foldl (fun acc j => emin acc (eadd (delMatAt d v.length i j) (some (v.getD j 0)))) none
+      = some (delMatEntry d v i) := by
+  rw [← delMat_min_eq d v v.length i hi]
+  apply foldl_congr_mem
+  intro a j hj
+  have hj' : j < v.length := List.mem_range.mp hj
+  rw [C01_delmat_entries d v.length i j hi hj']
+  split <;> simp [eadd]
+
+/-- The same inside the batched computation: before `(del_mat + row).min(1)` is read back as a
+number, its entry `(i, n)` is the finite value `delMatEntry` of column `n` (never `+∞`), for every
+line `i` and every column `n` of every `(R + 1, N)` block. -/
+theorem C01_delmat_inf_batch (d : Rat) (N n : Nat) (hn : n < N) (v : List (List Rat)) (hv : Wide N v)
+    (i : Nat) (hi : i < v.length) :
+    (minRows N (List.zipWith (fun (e : ERat) (vr : List Rat) => vr.map (fun x => eadd e (some x)))
+        (delMatLine d v.length i) v))[n]?
+      = some (some (delMatEntry d (colOf v n 0) i)) :=
+  delMatStepB_finite d N n hn v hv i hi
+
+/-! ### Batch level: every entry is the per-column model on that pair, in either layout -/
+
+/-- One iteration of the loop on a whole `(R + 1, N)` block, restricted to column `n`, is the
+per-column iteration (`C01_step`) on column `n`: the other columns are not looked at. -/
+theorem C01_batch_step (c : Costs) (N n : Nat) (hn : n < N) (ref : List (List α)) (hypLens : List Nat)
+    (excl : Bool) (idx : Nat) (y : List α) (last : List (List Rat)) (href : Wide N ref)
+    (hl : hypLens.length = N) (hy : y.length = N) (hlast : Wide N last)
+    (hlen : last.length = ref.length + 1) (dα : α) :
+    colOf (stepB c N ref hypLens excl idx y last) n 0
+      = stepCol c (colOf ref n dα) (hypLens.getD n 0) excl idx (y.getD n dα) (colOf last n 0) :=
+  stepB_col c N n hn ref hypLens excl idx y last href hl hy hlast hlen dα
+
+/-- `_lens_from_eos` as the code computes it on a tensor (`cumsum`, first hit, `masked_fill`) and
+the `include_eos` arithmetic give, in entry `n`, the length of the cut of column `n`. -/
+theorem C01_batch_lens (eos : Option α) (inc : Bool) (N n : Nat) (hn : n < N) (tok : List (List α))
+    (hW : Wide N tok) (dα : α) :
+    (seqLensB eos inc N tok).getD n 0 = (cut eos inc (colOf tok n dα)).length := by
+  rw [seqLensB_getD eos inc N n hn tok hW dα, cut_length]
+
+/-- **C01_batch_eq**: `edit_distance` on a whole batch in either layout, equal batch sizes `N`:
+the call succeeds and its result is, entry by entry, the per-column model on sequence `n` of `ref`
+and sequence `n` of `hyp` (column `n`, or row `n` under `batch_first`). -/
+theorem C01_batch_eq (c : Costs) (eos : Option α) (inc norm bf : Bool) (ref hyp : Tensor2 α) (dα : α)
+    (hr : ref.WF) (hh : hyp.WF) (N : Nat) (hN : batchSize bf ref = N) (hN' : batchSize bf hyp = N) :
+    editDistanceT c eos inc norm bf ref hyp dα
+      = .ok ((List.range N).map (fun n => editDistance c eos inc norm (seqOf bf ref n dα) (seqOf bf hyp n dα))) :=
+  editDistanceT_eq c eos inc norm bf ref hyp dα hr hh N hN hN'
+
+/-- **C01_batch_pair**: for every batch (any `N`, `R`, `H`, either layout) the value reported for
+pair `n` is the weighted edit distance of ITS cut sequences: attained by a script, below every script. -/
+theorem C01_batch_pair (c : Costs) (eos : Option α) (inc bf : Bool) (ref hyp : Tensor2 α) (dα : α)
+    (hr : ref.WF) (hh : hyp.WF) (N : Nat) (hN : batchSize bf ref = N) (hN' : batchSize bf hyp = N) :
+    ∃ out, editDistanceT c eos inc false bf ref hyp dα = .ok out ∧ out.length = N ∧
+      ∀ n, n < N → ∃ v, out[n]? = some v ∧
+        IsLevDist c (cut eos inc (seqOf bf ref n dα)) (cut eos inc (seqOf bf hyp n dα)) v := by
+  refine ⟨_, C01_batch_eq c eos inc false bf ref hyp dα hr hh N hN hN', by simp, ?_⟩
+  intro n hn
+  refine ⟨editDistance c eos inc false (seqOf bf ref n dα) (seqOf bf hyp n dα), ?_, C01_pair c eos inc _ _⟩
+  simp [List.getElem?_range hn]
+
+/-- **C01_batch_norm**: with `norm`, pair `n` is divided by the length of ITS reference. -/
+theorem C01_batch_norm (c : Costs) (eos : Option α) (inc bf : Bool) (ref hyp : Tensor2 α) (dα : α)
+    (hr : ref.WF) (hh : hyp.WF) (N : Nat) (hN : batchSize bf ref = N) (hN' : batchSize bf hyp = N) :
+    ∃ out, editDistanceT c eos inc true bf ref hyp dα = .ok out ∧
+      ∀ n, n < N → cut eos inc (seqOf bf ref n dα) ≠ [] →
+        out[n]? = some (lev c (cut eos inc (seqOf bf ref n dα)) (cut eos inc (seqOf bf hyp n dα))
+          / ((cut eos inc (seqOf bf ref n dα)).length : Rat)) := by
+  refine ⟨_, C01_batch_eq c eos inc true bf ref hyp dα hr hh N hN hN', ?_⟩
+  intro n hn hne
+  simp [List.getElem?_range hn, C01_norm c eos inc _ _ hne]
+
+/-- **C01_batch_independent**: a pair's result does not depend on the other pairs of the batch, on its
+position in the batch, on the batch size, on the padded sizes, on the layout, or on tokens after its
+end-of-sequence token: two batches (possibly of different shapes and layouts) that hold the same cut
+sequences at positions `n₁`, `n₂` report the same number there. -/
+theorem C01_batch_independent (c : Costs) (eos : Option α) (inc norm bf₁ bf₂ : Bool)
+    (ref₁ hyp₁ ref₂ hyp₂ : Tensor2 α) (dα : α)
+    (hr₁ : ref₁.WF) (hh₁ : hyp₁.WF) (hr₂ : ref₂.WF) (hh₂ : hyp₂.WF) (N₁ N₂ : Nat)
+    (hN₁ : batchSize bf₁ ref₁ = N₁) (hN₁' : batchSize bf₁ hyp₁ = N₁)
+    (hN₂ : batchSize bf₂ ref₂ = N₂) (hN₂' : batchSize bf₂ hyp₂ = N₂)
+    (n₁ n₂ : Nat) (hn₁ : n₁ < N₁) (hn₂ : n₂ < N₂)
+    (hr : cut eos inc (seqOf bf₁ ref₁ n₁ dα) = cut eos inc (seqOf bf₂ ref₂ n₂ dα))
+    (hh : cut eos inc (seqOf bf₁ hyp₁ n₁ dα) = cut eos inc (seqOf bf₂ hyp₂ n₂ dα)) :
+    ∃ o₁ o₂, editDistanceT c eos inc norm bf₁ ref₁ hyp₁ dα = .ok o₁
+      ∧ editDistanceT c eos inc norm bf₂ ref₂ hyp₂ dα = .ok o₂
+      ∧ o₁[n₁]? = o₂[n₂]? ∧ (o₁[n₁]?).isSome := by
+  refine ⟨_, _, C01_batch_eq c eos inc norm bf₁ ref₁ hyp₁ dα hr₁ hh₁ N₁ hN₁ hN₁',
+    C01_batch_eq c eos inc norm bf₂ ref₂ hyp₂ dα hr₂ hh₂ N₂ hN₂ hN₂', ?_, ?_⟩
+  · simp only [List.getElem?_map, List.getElem?_range hn₁, List.getElem?_range hn₂, Option.map_some]
+    rw [C01_independent c eos inc norm _ _ _ _ hr hh]
+  · simp [List.getElem?_range hn₁]
+
+/-- **C01_batch_first**: `batch_first` is a transposition of the two inputs … -/
+theorem C01_batch_first (c : Costs) (eos : Option α) (inc norm : Bool) (ref hyp : Tensor2 α) (dα : α) :
+    editDistanceT c eos inc norm true ref hyp dα = editDistanceT c eos inc norm false (ref.t dα) (hyp.t dα) dα :=
+  editDistanceT_batch_first c eos inc norm ref hyp dα
+
+/-- … and, for the per-prefix table, of the result as well. -/
+theorem C01_batch_first_prefix (c : Costs) (eos : Option α) (inc norm excl : Bool) (padding : Int)
+    (ref hyp : Tensor2 α) (dα : α) :
+    prefixEditDistancesT c eos inc norm true excl padding ref hyp dα
+      = (prefixEditDistancesT c eos inc norm false excl padding (ref.t dα) (hyp.t dα) dα).map (fun T => T.t 0) := by
+  unfold prefixEditDistancesT
+  simp only [if_true, Bool.false_eq_true, if_false]
+  split <;> rfl
+
+/-- **C01_batch_prefix**: `prefix_edit_distances` on a whole batch in either layout: the call succeeds,
+the table is `(H + 1 | H, N)` (`(N, H + 1 | H)` under `batch_first`), and for every pair `n` entry `k`
+of ITS line of the table is the weighted distance between its cut reference and the length-`k` prefix
+of its cut hypothesis for `k ≤ |hyp'|` (`<` under `exclude_last`), the padding value beyond. -/
+theorem C01_batch_prefix (c : Costs) (eos : Option α) (inc bf excl : Bool) (padding : Int)
+    (ref hyp : Tensor2 α) (dα : α) (hr : ref.WF) (hh : hyp.WF) (N : Nat) (hN : batchSize bf ref = N)
+    (hN' : batchSize bf hyp = N) :
+    ∃ T, prefixEditDistancesT c eos inc false bf excl padding ref hyp dα = .ok T
+      ∧ batchSize bf T = N
+      ∧ (if bf then T.d1 else T.d0) = (if bf then hyp.d1 else hyp.d0) + (if excl then 0 else 1)
+      ∧ ∀ n, n < N → ∀ k,
+          (k < (cut eos inc (seqOf bf hyp n dα)).length + (if excl then 0 else 1) →
+            (seqOf bf T n 0)[k]?
+              = some (lev c (cut eos inc (seqOf bf ref n dα)) ((cut eos inc (seqOf bf hyp n dα)).take k)))
+          ∧ ((cut eos inc (seqOf bf hyp n dα)).length + (if excl then 0 else 1) ≤ k →
+              k < (seqOf bf hyp n dα).length + (if excl then 0 else 1) →
+            (seqOf bf T n 0)[k]? = some (padding : Rat)) := by
+  obtain ⟨T, hT, hb, hs, hcol⟩ :=
+    prefixEditDistancesT_eq c eos inc false bf excl padding ref hyp dα hr hh N hN hN'
+  refine ⟨T, hT, hb, hs, ?_⟩
+  intro n hn k
+  rw [hcol n hn]
+  exact ⟨fun hk => C01_prefix c eos inc excl padding _ _ k hk,
+    fun hk hH => C01_prefix_padding c eos inc false excl padding _ _ k hk hH⟩
+
+/-- The whole table of pair `n` (any `norm`) is the per-column table of pair `n`. -/
+theorem C01_batch_prefix_eq (c : Costs) (eos : Option α) (inc norm bf excl : Bool) (padding : Int)
+    (ref hyp : Tensor2 α) (dα : α) (hr : ref.WF) (hh : hyp.WF) (N : Nat) (hN : batchSize bf ref = N)
+    (hN' : batchSize bf hyp = N) :
+    ∃ T, prefixEditDistancesT c eos inc norm bf excl padding ref hyp dα = .ok T
+      ∧ ∀ n, n < N → seqOf bf T n 0
+          = prefixEditDistances c eos inc norm excl padding (seqOf bf ref n dα) (seqOf bf hyp n dα) := by
+  obtain ⟨T, hT, _, _, hcol⟩ :=
+    prefixEditDistancesT_eq c eos inc norm bf excl padding ref hyp dα hr hh N hN hN'
+  exact ⟨T, hT, hcol⟩
+
+/-- **C01_batch_mismatch**: the model raises (the documented `RuntimeError`) exactly when the two
+batch sizes differ, for both functions and both layouts. -/
+theorem C01_batch_mismatch (c : Costs) (eos : Option α) (inc norm bf excl : Bool) (padding : Int)
+    (ref hyp : Tensor2 α) (dα : α) :
+    (editDistanceT c eos inc norm bf ref hyp dα = .error "RuntimeError" ↔ batchSize bf ref ≠ batchSize bf hyp)
+    ∧ (prefixEditDistancesT c eos inc norm bf excl padding ref hyp dα = .error "RuntimeError"
+        ↔ batchSize bf ref ≠ batchSize bf hyp) :=
+  ⟨editDistanceT_error_iff c eos inc norm bf ref hyp dα,
+    prefixEditDistancesT_error_iff c eos inc norm bf excl padding ref hyp dα⟩
+
 /-! ### Non-vacuity: the hypotheses above are satisfiable on concrete, non-trivial inputs -/
 
 -- `ref = [7,7,2,9]`, `hyp = [7,2,2]`, eos `2`, include_eos: `ref' = [7,7,2]`, `hyp' = [7,2]`
@@ -281,5 +458,28 @@ example : IsLevDist ⟨1/2, 1, 3/2⟩ [(7 : Int), 7, 2] [7, 2]
 example : shortcut ⟨2, 2, 2⟩ = (unitCosts, 2) := C01_shortcut_taken 2 (by norm_num)
 example : shortcut ⟨1/2, 1, 3/2⟩ = (⟨1/2, 1, 3/2⟩, 1) :=
   C01_shortcut_not_taken _ (by norm_num)
+
+/-! #### Batch level -/
+
+-- a 2 x 3 reference tensor and a 2 x 2 hypothesis tensor, batch-first (N = 2), and their shapes
+example : (⟨2, 3, [[7, 7, 2], [5, 2, 9]]⟩ : Tensor2 Int).WF := ⟨rfl, by simp [Wide]⟩
+example : (⟨2, 2, [[7, 2], [2, 2]]⟩ : Tensor2 Int).WF := ⟨rfl, by simp [Wide]⟩
+example : batchSize true (⟨2, 3, [[7, 7, 2], [5, 2, 9]]⟩ : Tensor2 Int) = 2 := rfl
+example : seqOf true (⟨2, 3, [[7, 7, 2], [5, 2, 9]]⟩ : Tensor2 Int) 1 0 = [5, 2, 9] := rfl
+example : seqOf false ((⟨2, 3, [[7, 7, 2], [5, 2, 9]]⟩ : Tensor2 Int).t 0) 1 0 = [5, 2, 9] := by decide
+-- the tensor model really runs: both layouts give the two distances 1 and 1 (eos 2 not counted)
+example : editDistanceT unitCosts (some (2 : Int)) false false true
+    ⟨2, 3, [[7, 7, 2], [5, 2, 9]]⟩ ⟨2, 2, [[7, 2], [2, 2]]⟩ 0 = .ok [1, 1] := by decide +kernel
+example : editDistanceT unitCosts (some (2 : Int)) false false false
+    ((⟨2, 3, [[7, 7, 2], [5, 2, 9]]⟩ : Tensor2 Int).t 0) ((⟨2, 2, [[7, 2], [2, 2]]⟩ : Tensor2 Int).t 0) 0
+      = .ok [1, 1] := by decide +kernel
+-- different batch sizes
+example : batchSize false (⟨3, 2, [[1, 1], [1, 1], [1, 1]]⟩ : Tensor2 Int)
+    ≠ batchSize false (⟨3, 3, [[1, 1, 1], [1, 1, 1], [1, 1, 1]]⟩ : Tensor2 Int) := by decide
+-- hypotheses of C01_batch_step / C01_delmat_inf_batch: a 3 x 2 block
+example : Wide 2 [[(0 : Rat), 0], [1, 1], [2, 2]] := by simp [Wide]
+-- del_mat for d = 2, R + 1 = 3, with its +inf entries
+example : delMat 2 3 = [[some 0, none, none], [some 2, some 0, none], [some 4, some 2, some 0]] := by
+  decide +kernel
 
 end PdtVerif.StringMatch
